@@ -1,6 +1,8 @@
 package main
 
 import (
+	"encoding/json"
+	"strconv"
 	"time"
 	"verif.local/verif/simlib/engine"
 )
@@ -114,9 +116,43 @@ func checkC13(c *checkCtx) int {
 	t1 := time.Now()
 	agg := newSchedAgg()
 	c.runSchedHot("C13", "plain", n, soft, timeout, agg)
+	// volume phase on the untouched build: a long-lived object against a young one
+	// over a stream of distinct data
+	stream := 2000000
+	if c.Tier == "thorough" {
+		stream = 30000000
+	}
+	volCalls := 0
+	if c.S.Pure != "" {
+		var vj [][]string
+		for w := 0; w < c.Par; w++ {
+			vj = append(vj, []string{"c13-volume", "-seed", strconv.FormatUint(c.Seed, 10), "-from", strconv.Itoa(w), "-to", strconv.Itoa(stream)})
+		}
+		for _, w := range runPool(c.S.Pure, vj, []string{"GOMAXPROCS=1"}, c.Par, timeout) {
+			if w.ExitCode != 0 {
+				c.infraf("%s", describeFailure(w))
+				continue
+			}
+			for _, d := range w.Docs {
+				switch docType(d) {
+				case "violation":
+					var v Violation
+					json.Unmarshal(mustMarshal(d), &v)
+					c.report(v)
+				case "volume-summary":
+					var s struct {
+						Calls int `json:"calls"`
+					}
+					json.Unmarshal(mustMarshal(d), &s)
+					volCalls += s.Calls
+				}
+			}
+		}
+	}
 	wall := time.Since(t1).Seconds()
 	cov := schedCoverage(agg, wall, false)
 	cov["rule"] = "an evaluation is one history: a single caller executing 5-40 seeded operations (Evaluate, Execute, Expression, create, caller-side in-place mutation of a datum, forced GC) over 1-3 long-lived evaluators/filters, with the hook failing on its j-th invocation inside some operations; a history is non-trivial when some object is called again after it has seen an erroring/panicking/faulted call, a caller-side mutation, or a different datum; distinct_nontrivial counts distinct such histories by plan hash"
+	cov["volume_phase"] = map[string]interface{}{"calls_on_the_untouched_build": volCalls, "note": "per worker process four streams of distinct data (log lines of 70 bytes, names, tag lists, small record lists; 2 000 000 / 30 000 000 data for the first stream, a sixteenth of that for the others) are evaluated by a long-lived object and by one recreated every 257 calls; the two must agree on every datum"}
 	cov["oracles"] = []string{"every operation returns what a freshly created object returns on a pristine rebuild of the datum as the caller last left it (same order tape and hook countdown; boolean, error text, Execute result)", "deep fingerprint of the datum (values, pointer topology, slice contents up to capacity, unexported fields) unchanged by every Evaluate/Execute", "Expression() equals the creation string byte for byte at every point of the history"}
 	c.writeEvidence("exploration", cov, []string{
 		"histories are sampled (seeded)",
